@@ -1,3 +1,3 @@
-From SH Require Import channel.Run.
+From SH Require Import channel.Run channel.RunRA.
 Require Extraction. Require Import ExtrOcamlBasic.
-Extraction "m_channel.ml" run_channel run_history.
+Extraction "m_channel.ml" run_channel run_history run_ra.
